@@ -102,3 +102,16 @@ add("C18", "exploration", ["dbh"], multi("hist_c18", "c18s"),
     "Histories with removals and id reuse compared with the model after every query (elements search = ids by increasing magnitude, each once, no "
     "removed element), plus elements searches with condition trees, limits and offsets against the reference evaluator.",
     "Conditions referring to distance or traversal control are not generated for elements searches.", "DESIGN.md §6 C18")
+
+for pid, what in [
+    ("C02", "every snapshot opens with Db, DbFile, DbAny::new_file and DbAny::new_mapped and the complete canonical dump (every element, property, alias, index) succeeds without error or panic"),
+    ("C03", "the exact canonical dump of the recovered database equals the dump before or after the interrupted query / transaction"),
+]:
+    add(pid, "fault_enumeration", ["dbh"], dbh("crash_" + pid.lower()),
+        "crash-point enumeration over hooked file-system calls of generated query histories + recovery oracle",
+        "Generated histories (queries, committed and rolled-back multi-query transactions, close+reopen with defragmentation) recorded through the "
+        "fs_event hooks; every prefix of the mutating file-system calls (an even sample for histories with more than ~1200 calls in the quick tier) "
+        "is materialised and reopened with the real code: " + what + ".",
+        "Trusts the fs_event hooks to see every mutating call (self-checked against the real files after every recorded run); crash granularity "
+        "is one system call; no OS write reordering; creation of the empty database is outside the quantifier.",
+        "DESIGN.md §6 " + pid + ", §5.5")
